@@ -78,6 +78,10 @@ def check_step(ctx, step, res, ref, spec_lines, spec_meta):
                                                                            "exception": exc_name(res), "message": str(res)[:200]}))
         return "spurious-raise"
     d = deq_out(res)
+    if isinstance(d, torch.Tensor) and isinstance(ref, torch.Tensor) and (d.shape != ref.shape or d.dtype != ref.dtype):
+        ctx.spec_failures.append((f"C05:differs:shape-or-dtype:{sigbase}", {"op": name, "params": step.params, "got": [list(d.shape), str(d.dtype)], "want": [list(ref.shape), str(ref.dtype)],
+                                                                        "operands": [oc.enc(o)[:200] for o in step.operands]}))
+        return "differs"
     if step.rel in ("exact", "fallback", "copy"):
         if not same_bits(d, ref):
             if step.name == "neg" and oc.is_qb(step.operands[0]) and isinstance(d, torch.Tensor) and d.shape == ref.shape:
@@ -192,7 +196,12 @@ def run_programs(ctx, nprog, collect_wf=None):
             ctx.evaluations += 1
             branch = "raise" if isinstance(res, BaseException) else ("quantized" if (oc.is_q(res) or (isinstance(res, list) and any(oc.is_q(x) for x in res))) else "float")
             ctx.count(f"op:{name}:{branch}")
-            status = check_step(ctx, step, res, ref, spec_lines, spec_meta)
+            try:
+                status = check_step(ctx, step, res, ref, spec_lines, spec_meta)
+            except Exception as e:  # noqa  — the implementation returned something the relation cannot even be evaluated on
+                ctx.spec_failures.append((f"C05:result-not-comparable:{step.note or step.name}:{exc_name(e)}", {"op": step.note or step.name, "params": step.params, "message": str(e)[:200],
+                                                                                                         "operands": [oc.enc(o)[:200] for o in step.operands]}))
+                status = "differs"
             ctx.count("status:" + status)
             trace.append(f"{name}{step.params}")
             ctx.nontriv((name, tuple(step.params), oc.signature(step, res) if hasattr(oc, "signature") else signature(step, res), branch, F))
